@@ -523,6 +523,24 @@ def tree_oracle(inp):
     except Exception as e:
         return [("PiecewiseTreeRegressor.%s:raises" % crit, "fit/predict raises on a valid training set",
                  "%s: %s" % (type(e).__name__, str(e)[:200]), "a fitted model")]
+    if inp.get("shallow_copy_then_refit"):
+        # a shallow copy of the fitted model (copy.copy shares the arrays) keeps predicting the per-leaf least-squares
+        # fits of ITS training set when the original is fitted again on targets giving the same tree shape
+        import copy
+        m2 = copy.copy(model)
+        try:
+            model.fit(X, 2.0 * y + 1.0)
+            again = m2.predict(Xq_call)
+            model.fit(X, y)          # back to the training set the oracles below speak about
+        except Exception as e:  # noqa: BLE001
+            return [("PiecewiseTreeRegressor.%s:raises" % crit, "refit raises on a valid training set",
+                     "%s: %s" % (type(e).__name__, str(e)[:200]), "a fitted model")]
+        if not numpy.array_equal(numpy.asarray(again), numpy.asarray(pred)):
+            k = int(numpy.argmax(numpy.asarray(again) != numpy.asarray(pred)))
+            bad.append(("PiecewiseTreeRegressor.%s:earlier-model-changed-by-refit" % crit,
+                        "the predictions of a shallow copy of the fitted model change when the original is fitted again "
+                        "(the refit wrote into the arrays of the earlier fit)", float(again[k]), float(pred[k])))
+        pred = model.predict(Xq_call)
     tree = model.tree_
     if md is not None and tree.max_depth > md:
         bad.append(("PiecewiseTreeRegressor.%s:max_depth" % crit, "tree deeper than max_depth", int(tree.max_depth), md))
@@ -570,10 +588,44 @@ def tree_oracle(inp):
     return bad
 
 
+def copy_oracle(inp):
+    """scikit-learn's builder works on `copy.deepcopy(criterion)`: the copy is then initialised on other targets / node
+    ranges, and the ORIGINAL must keep reporting the values of its own node range."""
+    import copy
+    numpy, C, K = load()
+    kind, n = inp["kind"], inp["n"]
+    r1 = Real(kind, n, inp["X"], inp["y"], inp["w"], inp["samples"], inp["wN"])
+    ops = ["i%d:%d" % (inp["start"], inp["end"]), "u%d" % inp["pos"]]
+    r1.run(ops)
+    before = r1.run(["V", "I", "C"])
+    try:
+        c2 = copy.deepcopy(r1.c)
+    except Exception as e:  # noqa: BLE001
+        return [("criterion.%s:deepcopy-raises" % kind, "copy.deepcopy of an initialised criterion raises",
+                 "%s: %s" % (type(e).__name__, str(e)[:120]), "an independent copy")]
+    y2 = numpy.array(inp["y2"], dtype=numpy.float64).reshape(n, 1)
+    C._test_criterion_init(c2, y2, r1.w, r1.wN, r1.samples, 0, n)
+    C._test_criterion_update(c2, max(1, n // 2))
+    after = r1.run(["V", "I", "C"])
+    if after != before:
+        return [("criterion.%s:deepcopy-shares-state" % kind, "after a deep copy of the criterion was initialised on other "
+                 "targets, the original reports other node value / impurities for its own node range", after, before)]
+    return []
+
+
 def search(ctx, hints):
     ctx.shadow(need_cython=True)
     rng = ctx.rng
     vs, evals, nontriv, samples = [], 0, set(), []
+    for kind in ("simple", "fast", "lin"):
+        for n in (4, 7):
+            X, y, w, samples_, wN = gen_case(rng, n, kind, False, 1)
+            inp = {"kind": kind, "n": n, "y": y, "w": w, "samples": samples_, "wN": wN, "X": X, "start": 0, "pos": 2,
+                   "end": n, "pre": [], "oracle": "copy", "y2": [v + 5 * (i % 3) for i, v in enumerate(y)]}
+            evals += 1
+            nontriv.add(("copy", kind, n))
+            for key, what, obs, req in copy_oracle(inp):
+                vs.append(Violation(key, what, inp, obs, req))
     # (a) criteria on every triple of small n
     N = ctx.pick(5, 7)
     for n in range(1, N + 1):
@@ -607,6 +659,8 @@ def search(ctx, hints):
                "oracle": "tree", "failed_fit_first": t % 5 == 2}
         if t % 4 == 1:
             inp["query_dtype"] = "int64"
+        if t % 3 == 0:
+            inp["shallow_copy_then_refit"] = True
         if t % 6 == 3 and inp["criterion"] == "mselin":
             inp["col0_exp10"] = rng.choice([-10, -12, 10])
         evals += 1
@@ -627,5 +681,6 @@ def search(ctx, hints):
 def replay(ctx, item):
     ctx.shadow(need_cython=True)
     inp = item["input"]
-    res = tree_oracle(inp) if inp.get("oracle") == "tree" else criterion_oracle(inp)
+    res = tree_oracle(inp) if inp.get("oracle") == "tree" else copy_oracle(inp) if inp.get("oracle") == "copy" \
+        else criterion_oracle(inp)
     return [Violation(k, w, inp, o, r) for k, w, o, r in res]
